@@ -52,6 +52,9 @@ func (c03) Units(tier string, seed int64) ([]core.Unit, error) {
 	rng := rand.New(rand.NewPCG(uint64(seed), 0xC03))
 	for _, n := range ops.Names() {
 		o := ops.Get(n)
+		if o.Family == "install" {
+			continue
+		}
 		rels := append([]string{}, o.Rels...)
 		if o.Family == "single" {
 			rels = append(rels, ops.RelDotSlash, ops.RelRelAbs, ops.RelSymlink, ops.RelHardlink)
